@@ -45,6 +45,9 @@ def parseYX? (s : String) : Option (Option YX) :=
 
 def fmtNat (n : Nat) : String := toString n
 
+def parseAxis? (s : String) : Option Axis :=
+  if s = "YX" then some .YX else if s = "YXS" then some .YXS else if s = "SYX" then some .SYX else none
+
 def fmt3 (t : Nat × Nat × Nat) : String := s!"{t.1};{t.2.1};{t.2.2}"
 def fmt4 (t : Nat × Nat × Nat × Nat) : String := s!"{t.1};{t.2.1};{t.2.2.1};{t.2.2.2}"
 
@@ -124,6 +127,33 @@ def run (args : List String) : Option String :=
     let ms ← parseList? parseMeta? ms; let hdr ← parseNat? hdr
     let obs ← parseList? parseObs? obs
     pure (fmtRes fmtInfo (patchHdr ms obs hdr))
+  | ["cchunks", ax, ndim, ns, bc, ty, tx] => do
+    let ax ← parseAxis? ax; let ndim ← parseNat? ndim; let ns ← parseNat? ns
+    let bc ← parseList? parseNat? bc; let ty ← parseNat? ty; let tx ← parseNat? tx
+    let c := compressChunks ax ndim ns bc ⟨ty, tx⟩
+    pure s!"{fmtList fmtNat c.band} {c.tile.y} {c.tile.x}"
+  | ["bname", ax, ndim, bc, s, y, x] => do
+    let ax ← parseAxis? ax; let ndim ← parseNat? ndim; let bc ← parseList? parseNat? bc
+    let s ← parseNat? s; let y ← parseNat? y; let x ← parseNat? x
+    let (kb, yy, xx) := blockName ax ndim bc s y x
+    pure s!"{fmtOpt fmtNat kb} {yy} {xx}"
+  | ["srcband", ns, bc, s] => do
+    let ns ← parseNat? ns; let bc ← parseList? parseNat? bc; let s ← parseNat? s
+    pure (fmtOpt fmtNat (sourceBandOfTile ns bc s))
+  | ["baggroups", n] => do
+    let n ← parseNat? n
+    pure (fmtList (fmtList fmtNat) (bagGroups (List.range n)))
+  | ["hdrsz", h0, st] => do
+    let h0 ← parseNat? h0
+    let st ← (if st = "N" then some none else match (st.splitOn ";").mapM parseNat? with
+      | some [a, b] => some (some (a, b))
+      | _ => none)
+    pure (fmtNat (patchedHdrSize h0 st))
+  | ["geotags", a] => do
+    let a ← parseAff? a
+    pure (match OdcGeo.Cog.encodeTransform a with
+      | .scaleTie sc tie => "33550=" ++ fmtList fmtRat sc ++ " 33922=" ++ fmtList fmtRat tie
+      | .matrix m => "34264=" ++ fmtList fmtRat m)
   | ["pad", n, t, i] => do
     let n ← parseNat? n; let t ← parseNat? t; let i ← parseNat? i
     let (a, b) := tilePad n t i
